@@ -24,14 +24,16 @@ theorem proxy_refines_seq (v : View) (hwf : v.lay.WF) (hne : v.lay ≠ []) (hinj
     (m : Mem α) (xs' : List (List α)) (pos : Int)
     (h : p.runList (rowsVal v m) = some (xs', pos)) :
     ∃ m', p.runRows v m = some (m', pos) ∧ rowsVal v m' = xs' ∧ ∀ a, ¬ v.InImage a → m' a = m a := by
-  sorry
+  obtain ⟨m', e1, e2, e3⟩ := (rows_refines v hwf hne hinj).run p hp.toP m xs' pos h
+  exact ⟨m', by rw [runRows_eq]; exact e1, e2, e3⟩
 
 /-- **elements()**: the same through the flat elements range -/
 theorem elements_refines_seq (v : View) (hwf : v.lay.WF) (hne : v.lay ≠ []) (hinj : v.Injective)
     (p : Prog α) (m : Mem α) (xs' : List α) (pos : Int)
     (h : p.runList (elemsVal v m) = some (xs', pos)) :
     ∃ m', p.runElems v m = some (m', pos) ∧ elemsVal v m' = xs' ∧ ∀ a, ¬ v.InImage a → m' a = m a := by
-  sorry
+  obtain ⟨m', e1, e2, e3⟩ := (elems_refines v hwf hne hinj).run p p.typedP_true m xs' pos h
+  exact ⟨m', by rw [runElems_eq]; exact e1, e2, e3⟩
 
 /-- iterator arithmetic of the proxy iterators is integer arithmetic on positions (C02.arrit_laws, restated for `begin() + i`) -/
 theorem positions_are_integers (v : View) (hs : v.begin'.stride ≠ 0) (i j : Int) :
@@ -39,18 +41,51 @@ theorem positions_are_integers (v : View) (hs : v.begin'.stride ≠ 0) (i j : In
     (v.begin'.add i).add j = v.begin'.add (i + j) ∧ (v.begin'.add i).sub' j = v.begin'.add (i - j) ∧
     (v.begin'.add i).diff (v.begin'.add j) = i - j ∧
     ((v.begin'.add i).lt (v.begin'.add j) = decide (i < j)) ∧ ((v.begin'.add i).eq (v.begin'.add j) = decide (i = j)) := by
-  sorry
+  refine ⟨?_, ?_, arrit_add_add _ i j, ?_, arrit_diff_add2 _ i j hs, ?_, ?_⟩
+  · rw [(arrit_inc_eq_add _).1, arrit_add_add]
+  · apply ArrIt.ext_eq <;> simp [ArrIt.add, ArrIt.dec]
+    rw [Int.mul_sub]; omega
+  · apply ArrIt.ext_eq <;> simp [ArrIt.add, ArrIt.sub']
+    rw [Int.mul_sub]; omega
+  · simp only [ArrIt.lt]; rw [arrit_diff_add2 _ j i hs]
+    exact decide_eq_decide.mpr (by omega)
+  · have := (C02.arrit_laws v.begin' i j hs).2.2.2.2.2.2.2.2.2.2
+    rw [Bool.eq_iff_iff, this]; simp
 
 /-- sanity: `std::reverse` written against the interface reverses a list of independent values … -/
 theorem revProg_list {ρ : Type} (xs : List ρ) :
     (revProg ρ xs.length 0 xs.length).runList xs = some (xs.reverse, 0) := by
-  sorry
+  have := revProg_run xs.length [] xs [] 0 xs.length rfl (by simp) (Nat.le_refl _)
+  simpa using this
 
 /-- … hence, by `proxy_refines_seq`, it reverses the rows of any well-formed injective view in place and touches nothing else -/
 theorem revProg_rows (v : View) (hwf : v.lay.WF) (hne : v.lay ≠ []) (hinj : v.Injective) (m : Mem α) :
     ∃ m', (revProg (List α) (rowsVal v m).length 0 (rowsVal v m).length).runRows v m = some (m', 0) ∧
       rowsVal v m' = (rowsVal v m).reverse ∧ ∀ a, ¬ v.InImage a → m' a = m a := by
-  sorry
+  exact proxy_refines_seq v hwf hne hinj _ (revProg_typed _ _ _ _) m _ 0 (revProg_list (rowsVal v m))
+
+/-! non-vacuity: the transposed 3×2 view of a 2×3 array at base 10 satisfies every hypothesis of `proxy_refines_seq` /
+    `elements_refines_seq`, and insertion sort written against the interface sorts a list of independent rows -/
+example : ∃ v : View, v.lay.WF ∧ v.lay ≠ [] ∧ v.Injective ∧ v.exts = [⟨0, 3⟩, ⟨0, 2⟩] := by
+  refine ⟨⟨10, [⟨1, 0, 3⟩, ⟨3, 0, 6⟩]⟩, ?_, by simp, ?_, by decide +kernel⟩
+  · intro d hd
+    simp only [List.mem_cons, List.not_mem_nil, or_false] at hd
+    rcases hd with rfl | rfl
+    · exact Or.inr ⟨by decide, by decide, ⟨3, by decide⟩, ⟨0, by decide⟩⟩
+    · exact Or.inr ⟨by decide, by decide, ⟨2, by decide⟩, ⟨0, by decide⟩⟩
+  · intro i j hi hj h
+    have e : (⟨10, [⟨1, 0, 3⟩, ⟨3, 0, 6⟩]⟩ : View).exts = [⟨0, 3⟩, ⟨0, 2⟩] := by decide +kernel
+    rw [e] at hi hj
+    obtain ⟨a, b, rfl, _, _, _, _⟩ := inBox_two hi
+    obtain ⟨a', b', rfl, _, _, _, _⟩ := inBox_two hj
+    simp only [addr_eq, Layout.off] at h
+    simp only [List.cons.injEq, and_true]
+    constructor <;> omega
+
+example : (isortProg (listLex fun (a b : Int) => decide (a < b)) 10 0 3).runList [[3, 1], [2, 5], [2, 4]]
+    = some ([[2, 4], [2, 5], [3, 1]], 0) := by decide +kernel
+
+example : (revProg Nat 5 0 5).runList [1, 2, 3, 4, 5] = some ([5, 4, 3, 2, 1], 0) := by decide +kernel
 
 end C03
 end Multi
